@@ -196,7 +196,8 @@ def exec (refCheck : Bool) (db : DB) : Stmt → Option DB
     match db.find t with
     | none => none
     | some tb =>
-      if !tb.hasCol c then none
+      if c == "" then some db        -- table comment: the table must exist; not part of the schema compared
+      else if !tb.hasCol c then none
       else some (db.replace { tb with cols := tb.cols.map (fun x =>
         if x.name == c then { x with opts := x.opts.filter (fun o => match o with | .comment _ => false | _ => true) ++ [.comment text] } else x) })
 
